@@ -159,9 +159,13 @@ func (c *mtastsPolicy) Close() error {
 }
 
 func (c *mtastsDelivery) PrepareDomain(ctx context.Context, domain string) {
-	c.policyFut = future.New()
+	// The same mtastsDelivery is used for all recipient domains of the
+	// message. Keep the result of this lookup bound to this domain even if
+	// PrepareDomain is called again before the lookup completes.
+	fut := future.New()
+	c.policyFut = fut
 	go func() {
-		c.policyFut.Set(c.c.mtastsGet(ctx, domain))
+		fut.Set(c.c.mtastsGet(ctx, domain))
 	}()
 }
 
